@@ -21,4 +21,6 @@ def run(rep, fb, tier):
     from ..rules import pyrules as _pr
     _pr.rule_py_unreachable(rep)
     _pr.rule_py_callback_layout(rep)
+    from ..rules import lints2 as _l2
+    _l2.rule_dtype_case_methods(rep, fb)
     rep.units = fb.units
